@@ -157,6 +157,22 @@ func elemTypeName(e ast.Expr) string {
 	return ""
 }
 
+// hasField: struct tn of this package declares a field f.
+func (p *pkgInfo) hasField(tn, f string) bool {
+	st, ok := p.structs[tn]
+	if !ok {
+		return false
+	}
+	for _, fl := range st.Fields.List {
+		for _, n := range fl.Names {
+			if n.Name == f {
+				return true
+			}
+		}
+	}
+	return false
+}
+
 // hasMethod: type tn of this package (struct or interface) declares method m.
 func (p *pkgInfo) hasMethod(tn, m string) bool {
 	if _, ok := p.methods[tn+"."+m]; ok {
@@ -210,9 +226,25 @@ func load(dir string, tag string) *pkgInfo {
 				case *ast.GenDecl:
 					for _, sp := range d.Specs {
 						if vs, ok := sp.(*ast.ValueSpec); ok && d.Tok == token.VAR {
-							for _, n := range vs.Names {
+							for i, n := range vs.Names {
 								if n.Name != "_" {
 									p.globals[n.Name] = true
+									// declared type, or the type of a composite-literal initialiser
+									et := ""
+									if vs.Type != nil {
+										et = elemTypeName(vs.Type)
+									} else if i < len(vs.Values) {
+										v := vs.Values[i]
+										if u, ok := v.(*ast.UnaryExpr); ok {
+											v = u.X
+										}
+										if cl, ok := v.(*ast.CompositeLit); ok && cl.Type != nil {
+											et = elemTypeName(cl.Type)
+										}
+									}
+									if et != "" {
+										p.fieldElem["global."+n.Name] = et
+									}
 								}
 							}
 						}
@@ -256,6 +288,12 @@ func load(dir string, tag string) *pkgInfo {
 					if d.Recv != nil && len(d.Recv.List) == 1 && d.Body != nil {
 						tn := typeName(d.Recv.List[0].Type)
 						p.methods[tn+"."+d.Name.Name] = d
+						// the class of a value returned by a method ("T.m()") has the method's first result type
+						if d.Type.Results != nil && len(d.Type.Results.List) > 0 {
+							if et := elemTypeName(d.Type.Results.List[0].Type); et != "" {
+								p.fieldElem[tn+"."+d.Name.Name+"()"] = et
+							}
+						}
 						p.byName[d.Name.Name] = append(p.byName[d.Name.Name], tn)
 					} else if d.Recv == nil && d.Body != nil && d.Name.Name != "init" && d.Name.Name != "main" {
 						p.funcs[d.Name.Name] = d
@@ -589,6 +627,13 @@ func (t *fnTrans) call(x *ast.CallExpr, sc *scope) *stmt {
 		}
 		if c, ok := t.classOf(f.X, sc); ok {
 			if strings.HasPrefix(c, "=") {
+				if _, isMethod := t.p.methods[c[1:]+"."+meth]; !isMethod {
+					if _, isField := t.p.fieldElem[c[1:]+"."+meth]; isField || t.p.hasField(c[1:], meth) {
+						// a function value stored in a field of the tracked object: reading the
+						// field, then a call of an opaque function (like a function of another package)
+						return seq(acc(c[1:]+"."+meth, false), args)
+					}
+				}
 				// method of the tracked object itself
 				return seq(args, &stmt{kind: "Call", s1: "@" + c[1:], s2: meth})
 			}
